@@ -20,8 +20,9 @@ EXTENDS Cleaner, Json, IOUtils, TLCExt
 
 Batch == JsonDeserialize(IOEnv.TRACE_FILE)
 
-VARIABLES tid, l
-tvars == <<vars, tid, l>>
+VARIABLES tid, l,
+          selfs     \* originals whose first occurrence was LEFT AS IT IS because its text is an issued substitute
+tvars == <<vars, tid, l, selfs>>
 
 Rng(s) == {s[i] : i \in DOMAIN s}
 T      == Batch[tid]
@@ -30,7 +31,7 @@ More   == l < Len(T.events)
 
 CfOf(t) == [obf |-> t.cf.obf, host |-> t.cf.host, mac |-> t.cf.mac, kws |-> Rng(t.cf.kws), pats |-> Rng(t.cf.pats),
             regex |-> t.cf.regex, sysdom |-> t.cf.sysdom, fam |-> t.cf.fam]
-SpOf(s) == [nored |-> s.nored, noobf |-> Rng(s.noobf)]
+SpOf(s) == [nored |-> s.nored, noobf |-> Rng(s.noobf), width |-> s.width]
 ContentOf(t) == IF t.mode = "runs"
                   THEN [s \in DOMAIN t.content |-> [sp |-> SpOf(t.content[s].sp), lines |-> t.content[s].lines]]
                   ELSE <<>>
@@ -38,33 +39,37 @@ ContentOf(t) == IF t.mode = "runs"
 InitFrom(t) ==
     /\ phase = "idle" /\ cf = CfOf(t) /\ ord = <<>> /\ run = 1 /\ content = ContentOf(t) /\ si = 0
     /\ cur = [i |-> 0, acc |-> <<>>] /\ db = <<>> /\ seen = {} /\ cnt = 0 /\ outs = <<>>
-    /\ report = {} /\ runs = <<>>
+    /\ report = {} /\ runs = <<>> /\ selfs = {}
 NextFrom(t) ==
     /\ phase' = "idle" /\ cf' = CfOf(t) /\ ord' = <<>> /\ run' = 1 /\ content' = ContentOf(t) /\ si' = 0
     /\ cur' = [i |-> 0, acc |-> <<>>] /\ db' = <<>> /\ seen' = {} /\ cnt' = 0 /\ outs' = <<>>
-    /\ report' = {} /\ runs' = <<>>
+    /\ report' = {} /\ runs' = <<>> /\ selfs' = {}
 
 -----------------------------------------------------------------------------
 (* ---- line: C08 on the observation, C09 on the reconstructed db ---- *)
 CurSp == content[si].sp
-Changed(o) == o.st \in {"sub", "other"}
-(* occurrences that bind / are checked against db *)
-MapIdx(toks, obs) == {j \in DOMAIN toks : /\ Group(toks[j].k) # "none" /\ Delimited(toks[j])
-                                          /\ MustHide(toks[j], cf, CurSp) /\ ~Competing(cf) /\ Changed(obs[j])}
+(* occurrences the mapping talks about: maximal / delimited, must be hidden, *)
+(* the line was not dropped.  obs[j].v is the interned rendering; for an    *)
+(* occurrence left as it is ("kept", "self") it is the interned token text. *)
+Occ(toks, obs) == {j \in DOMAIN toks : /\ Group(toks[j].k) # "none" /\ DelimK(toks[j])
+                                       /\ MustHide(toks[j], cf, CurSp) /\ ~Competing(cf) /\ obs[j].st # "dropped"}
+(* occurrences that bind db: rewritten, or left alone because the text is an *)
+(* issued substitute (C08's exception clause).  A plain "kept" is NoLeak's.  *)
+Bind(toks, obs) == {j \in Occ(toks, obs) : obs[j].st \in {"sub", "other", "self"}}
 Strict(g) == g \in {"ip", "host", "mac"}
+FirstOf(toks, obs, p) == CHOOSE j \in Bind(toks, obs) : OrigOf(toks[j]) = p /\ \A i \in Bind(toks, obs) : OrigOf(toks[i]) = p => j <= i
 NewDb(toks, obs) ==
-    LET idx == MapIdx(toks, obs)
-        new == {OrigOf(toks[j]) : j \in idx} \ DOMAIN db
-    IN [p \in DOMAIN db \cup new |->
-          IF p \in DOMAIN db THEN db[p]
-          ELSE obs[CHOOSE j \in idx : OrigOf(toks[j]) = p /\ \A i \in idx : OrigOf(toks[i]) = p => j <= i].v]
+    LET new == {OrigOf(toks[j]) : j \in Bind(toks, obs)} \ DOMAIN db
+    IN [p \in DOMAIN db \cup new |-> IF p \in DOMAIN db THEN db[p] ELSE obs[FirstOf(toks, obs, p)].v]
+NewSelfs(toks, obs) ==
+    selfs \cup {p \in {OrigOf(toks[j]) : j \in Bind(toks, obs)} \ DOMAIN db : obs[FirstOf(toks, obs, p)].st = "self"}
 
 LeakIdx(toks, obs) == {j \in DOMAIN toks : MustHide(toks[j], cf, CurSp) /\ obs[j].st = "kept"}
 PatBad(toks, obs)  == MustDrop(toks, cf, CurSp) /\ \E j \in DOMAIN toks : obs[j].st # "dropped"
 ConsBad(toks, obs) ==   \* occurrences whose rendering differs from the one the original already has
-    {j \in MapIdx(toks, obs) : /\ Strict(OrigOf(toks[j])[1])
-                               /\ \/ OrigOf(toks[j]) \in DOMAIN db /\ db[OrigOf(toks[j])] # obs[j].v
-                                  \/ \E i \in MapIdx(toks, obs) : OrigOf(toks[i]) = OrigOf(toks[j]) /\ obs[i].v # obs[j].v}
+    {j \in Occ(toks, obs) : /\ Strict(OrigOf(toks[j])[1])
+                            /\ \/ OrigOf(toks[j]) \in DOMAIN db /\ db[OrigOf(toks[j])] # obs[j].v
+                               \/ \E i \in Occ(toks, obs) : OrigOf(toks[i]) = OrigOf(toks[j]) /\ obs[i].v # obs[j].v}
 InjBad(ndb) == {pq \in (DOMAIN ndb) \X (DOMAIN ndb) :
                    /\ pq[1] # pq[2] /\ pq[1][1] = pq[2][1] /\ pq[1][1] \in {"ip", "host"}
                    /\ ndb[pq[1]] = ndb[pq[2]]}
@@ -92,7 +97,7 @@ EndOK ==
 (* ---- report: C09 ReportExact / NoPhantom against the reconstructed db ---- *)
 Known(m) == m.k # "unknown"
 Key(m)   == <<m.g, IF m.k = "fqdn" THEN 0 ELSE m.id>>
-Missing(maps) == {p \in DOMAIN db : ~\E m \in Rng(maps) : Known(m) /\ Key(m) = p /\ m.v = db[p]}
+Missing(maps) == {p \in DOMAIN db \ selfs : ~\E m \in Rng(maps) : Known(m) /\ Key(m) = p /\ m.v = db[p]}
 Wrong(maps)   == {m \in Rng(maps) : Known(m) /\ Key(m) \in DOMAIN db /\ m.v # db[Key(m)]}
 Phantom(maps) == {m \in Rng(maps) : IF Known(m) THEN Key(m) \notin seen \cup {Sys} ELSE ~m.inc}
 ReportOK ==
@@ -128,20 +133,22 @@ Accepts ==
       [] OTHER -> FALSE
 
 Keep == UNCHANGED <<phase, cf, ord, run, cur, cnt, outs, report>>
+KeepS == UNCHANGED selfs
 Apply ==
     CASE Ev.ev = "spec" ->
            /\ content' = Append(content, [sp |-> SpOf(Ev.sp), lines |-> [j \in 1..Ev.n |-> <<>>]])
            /\ si' = si + 1
-           /\ Keep /\ UNCHANGED <<db, seen, runs>>
+           /\ Keep /\ KeepS /\ UNCHANGED <<db, seen, runs>>
       [] Ev.ev = "line" ->
            /\ db' = NewDb(Ev.toks, Ev.obs)
+           /\ selfs' = NewSelfs(Ev.toks, Ev.obs)
            /\ seen' = seen \cup OccIn(Ev.toks)
            /\ content' = [content EXCEPT ![si].lines[Ev.src] = Ev.toks]
            /\ Keep /\ UNCHANGED <<si, runs>>
       [] Ev.ev = "run" ->
            /\ runs' = Append(runs, Ev)
-           /\ Keep /\ UNCHANGED <<content, si, db, seen>>
-      [] OTHER -> Keep /\ UNCHANGED <<content, si, db, seen, runs>>
+           /\ Keep /\ KeepS /\ UNCHANGED <<content, si, db, seen>>
+      [] OTHER -> Keep /\ KeepS /\ UNCHANGED <<content, si, db, seen, runs>>
 
 -----------------------------------------------------------------------------
 (* total verdicts: name the failing clause and the abstract features of the *)
@@ -155,19 +162,44 @@ Feat(g, occ) ==
     ELSE "plain"
 Sw == (IF cf.obf THEN "O" ELSE "o") \o (IF cf.host THEN "H" ELSE "h") \o (IF cf.mac THEN "M" ELSE "m")
 
+(* what exactly is inconsistent about occurrence j *)
+Which(p) == IF p[2] \in Rng(T.special) THEN "collision-original" ELSE "ordinary-original"
+ConsKind(toks, obs, j) ==
+    LET p == OrigOf(toks[j]) IN
+    IF obs[j].st \in {"kept", "self"}
+      THEN IF p \in DOMAIN db /\ p \notin selfs THEN "left-in-clear-after-being-replaced"
+           ELSE "left-in-clear-next-to-a-replaced-occurrence"
+      ELSE IF p \in selfs THEN "replaced-after-being-left-in-clear"
+           ELSE IF \/ \E q \in DOMAIN db : q # p /\ db[q] = obs[j].v
+                   \/ \E i \in Occ(toks, obs) : OrigOf(toks[i]) # p /\ obs[i].v = obs[j].v
+                  THEN "rendered-as-another-originals-substitute"
+           ELSE IF obs[j].st = "other" THEN "corrupted-rendering"
+           ELSE "second-substitute"
+DiagCons(toks, obs) ==
+    LET j == CHOOSE j \in ConsBad(toks, obs) : TRUE
+        p == OrigOf(toks[j])
+        f == Feat(p[1], seen \cup OccIn(toks)) IN
+    "Consistent:" \o p[1] \o ":" \o f \o ":" \o ConsKind(toks, obs, j) \o (IF f = "plain" THEN "" ELSE ":" \o Which(p))
+DiagInj(toks, obs) ==
+    LET pq == CHOOSE pq \in InjBad(NewDb(toks, obs)) : TRUE
+        f  == Feat(pq[1][1], seen \cup OccIn(toks)) IN
+    "Injective:" \o pq[1][1] \o ":" \o f \o
+        (IF f = "plain" THEN ""
+         ELSE (IF pq[1][2] \in Rng(T.special) \/ pq[2][2] \in Rng(T.special) THEN ":with-collision-original" ELSE ":ordinary-originals")
+              \o (IF {pq[1], pq[2]} \subseteq OccIn(toks) THEN ":on-one-line" ELSE ":across-lines"))
+DiagLeak(toks, obs) ==
+    LET j == CHOOSE j \in LeakIdx(toks, obs) : TRUE  t == toks[j] IN
+    "NoLeak:" \o t.k \o ":" \o t.l \o "-" \o t.r \o (IF t.k = "dom" /\ ~cf.sysdom THEN ":nodomain" ELSE "")
+        \o (IF CurSp.width THEN ":width" ELSE "")
 DiagLine ==
     LET toks == Ev.toks  obs == Ev.obs IN
     IF ~(si >= 1 /\ Len(toks) = Len(obs) /\ Ev.src \in DOMAIN content[si].lines) THEN "line.shape"
-    ELSE IF LeakIdx(toks, obs) # {} THEN
-        LET j == CHOOSE j \in LeakIdx(toks, obs) : TRUE  t == toks[j] IN
-        "NoLeak:" \o t.k \o ":" \o t.l \o "-" \o t.r \o (IF t.k = "dom" /\ ~cf.sysdom THEN ":nodomain" ELSE "")
+    ELSE IF T.prop = "C09" /\ ConsBad(toks, obs) # {} THEN DiagCons(toks, obs)
+    ELSE IF T.prop = "C09" /\ InjBad(NewDb(toks, obs)) # {} THEN DiagInj(toks, obs)
+    ELSE IF LeakIdx(toks, obs) # {} THEN DiagLeak(toks, obs)
     ELSE IF PatBad(toks, obs) THEN "PatternDrops:" \o (IF cf.regex THEN "regex" ELSE "plain")
-    ELSE IF ConsBad(toks, obs) # {} THEN
-        LET j == CHOOSE j \in ConsBad(toks, obs) : TRUE  g == OrigOf(toks[j])[1] IN
-        "Consistent:" \o g \o ":" \o Feat(g, seen \cup OccIn(toks))
-    ELSE IF InjBad(NewDb(toks, obs)) # {} THEN
-        LET pq == CHOOSE pq \in InjBad(NewDb(toks, obs)) : TRUE IN
-        "Injective:" \o pq[1][1] \o ":" \o Feat(pq[1][1], seen \cup OccIn(toks))
+    ELSE IF ConsBad(toks, obs) # {} THEN DiagCons(toks, obs)
+    ELSE IF InjBad(NewDb(toks, obs)) # {} THEN DiagInj(toks, obs)
     ELSE "line.unknown"
 
 DiagEnd ==
@@ -180,7 +212,8 @@ DiagReport ==
     IF Missing(Ev.maps) # {} THEN
         LET p == CHOOSE p \in Missing(Ev.maps) : TRUE IN
         "ReportExact:" \o p[1] \o ":" \o Feat(p[1], seen) \o
-            (IF \E m \in Rng(Ev.maps) : Known(m) /\ Key(m) = p THEN ":other-substitute" ELSE ":unlisted")
+            (IF \E m \in Rng(Ev.maps) : Known(m) /\ Key(m) = p THEN ":other-substitute" ELSE ":unlisted") \o
+            (IF Feat(p[1], seen) = "plain" THEN "" ELSE ":" \o Which(p))
     ELSE IF Wrong(Ev.maps) # {} THEN
         LET m == CHOOSE m \in Wrong(Ev.maps) : TRUE IN "ReportExact:" \o m.g \o ":" \o Feat(m.g, seen) \o ":conflict"
     ELSE LET m == CHOOSE m \in Phantom(Ev.maps) : TRUE IN "NoPhantom:" \o m.g
@@ -211,7 +244,7 @@ Advance ==
       THEN /\ tid' = tid + 1 /\ l' = 0
            /\ NextFrom(Batch[tid + 1])
       ELSE /\ tid' = Len(Batch) + 1 /\ l' = 0
-           /\ UNCHANGED vars
+           /\ UNCHANGED <<vars, selfs>>
 
 TraceInit == tid = 1 /\ l = 0 /\ InitFrom(Batch[1])
 
